@@ -12,7 +12,7 @@ exit 2: undecided (extraction anchor lost, unsupported construct, compile error 
 """
 import os, sys, json, time, re, fnmatch, hashlib, subprocess, argparse
 sys.path.insert(0, os.path.dirname(os.path.abspath(__file__)))
-import extract, runverus, obligations
+import extract, runverus, runkani, obligations
 
 VERIF = extract.VERIF
 EVID = os.path.join(VERIF, 'evidence')
@@ -136,8 +136,22 @@ def main():
 
     # 4. the property's obligations
     obl = []
+    kani = None
     for pat, kind in obligations.OBLIGATIONS[pid]:
-        hits = sorted(n for n in tab if fnmatch.fnmatchcase(n, pat))
+        if kind.startswith('kani'):
+            if kani is None:
+                kani = runkani.run_all()
+                if not kani['harnesses'] or not kani.get('complete_summary'):
+                    return undecided('kani-did-not-run-to-completion:' + re.sub(r'\s+', '_', kani['raw_tail'][-200:]))
+            hits = sorted(n for n in kani['harnesses'] if fnmatch.fnmatchcase(n, pat))
+            if not hits:
+                return undecided('obligation-lost:kani:' + pat)
+            for n in hits:
+                tab['kani:' + n] = {'success': kani['harnesses'][n].get('ok', False), 'time_us': int(kani['harnesses'][n].get('time_s', 0) * 1e6), 'rlimit': 0, 'mode': kind}
+                if ('kani:' + n, kind) not in obl:
+                    obl.append(('kani:' + n, kind))
+            continue
+        hits = sorted(n for n in tab if fnmatch.fnmatchcase(n, pat) and not n.startswith('kani:'))
         if not hits:
             return undecided('obligation-lost:' + pat)
         for n in hits:
@@ -146,11 +160,11 @@ def main():
     failed = [(n, k) for n, k in obl if not tab[n]['success']]
     rlimit_hit = [d for d in run['diagnostics'] if 'rlimit' in d['message'] or 'Resource limit' in d['message']]
     discharged = len(obl) - len(failed)
-    per = [{'obligation': n, 'kind': k, 'backend': 'verus/z3', 'discharged': tab[n]['success'],
+    per = [{'obligation': n, 'kind': k, 'backend': ('kani/cbmc complete' if k == 'kani' else 'kani/cbmc ' + k[5:] if k.startswith('kani') else 'verus/z3'), 'discharged': tab[n]['success'],
             'time_ms': tab[n]['time_us'] // 1000, 'rlimit': tab[n]['rlimit']} for n, k in obl]
     cov = {
         'obligations': len(obl), 'discharged': discharged,
-        'checker_cmd': run['cmd'],
+        'checker_cmd': run['cmd'] + ((' ; ' + kani['cmd']) if kani else ''),
         'trusted_base': trusted,
         'functions_under_contract': sorted(set(n for n, k in obl if k == 'body')),
         'per_obligation': per,
@@ -160,7 +174,8 @@ def main():
         'inputs_sha256': info['inputs'], 'generated_sha256': info['generated_sha256'],
         'rewrites_applied': info['rewrites'], 'merge': info['merge'],
         'samples': [{'obligation': n, 'kind': k} for n, k in obl[:5]],
-        'bounded': [],
+        'bounded': [n for n, k in obl if k.startswith('kani-bounded')],
+        'kani': ({'wall_s': kani['wall_s'], 'cached': kani['cached'], 'harnesses': len(kani['harnesses'])} if kani else None),
         'explanation': 'each obligation is the Verus verification condition set of one real function of /repo/src (re-extracted on this run) against its inserted contract, or a lemma over those contracts',
     }
     if failed:
@@ -169,16 +184,21 @@ def main():
         if rlimit_hit and all(any(('rlimit' in d['message'] or 'Resource limit' in d['message']) for d in diag_for(run, text, [n])) for n in names):
             return undecided('resource-limit-in:' + ','.join(names)[:150], cov)
         os.makedirs(REPLAYS, exist_ok=True)
+        cex = None
+        for n in names:
+            if n.startswith('kani:'):
+                cex = {'harness': n[5:], 'kani_concrete_playback': runkani.counterexample(n[5:])}
+                break
         h = hashlib.sha256((pid + info['generated_sha256']).encode()).hexdigest()[:12]
         rpath = os.path.join(REPLAYS, '%s-%s.json' % (pid, h))
         json.dump({'property': pid, 'failed_obligations': names, 'backend': 'verus/z3',
-                   'verifier_output': ds, 'input': None,
+                   'verifier_output': ds, 'input': cex,
                    'replay_cmd': 'python3 tools/check.py --replay ' + rpath,
                    'generated_sha256': info['generated_sha256'], 'inputs_sha256': info['inputs']}, open(rpath, 'w'), indent=1)
         write_evidence(pid, a.tier, seed, t0, cov, ASSUMPTIONS_COMMON, len(failed))
         for n in names:
             print('FAILED-OBLIGATION property=%s obligation=%s' % (pid, n))
-        print('VIOLATION property=%s replay=%s no-failing-input-found' % (pid, rpath))
+        print('VIOLATION property=%s replay=%s%s' % (pid, rpath, '' if cex else ' no-failing-input-found'))
         return 1
     write_evidence(pid, a.tier, seed, t0, cov, ASSUMPTIONS_COMMON, 0)
     print('OK property=%s obligations=%d discharged=%d wall=%.1fs' % (pid, len(obl), discharged, time.time() - t0))
